@@ -388,6 +388,20 @@ def corpus():
     ]
 
 
+def known_replays():
+    return [(BLANK_SN, 'a plugin resource with service.name = "" replaces the service name after Resource.create applied '
+             'its fallback: the client resource names no service',
+             {'kind': 'create', 'env': {}, 'unmodelled_env': False, 'given': None, 'url': None, 'blank_sn': True,
+              'plugins': [{'attrs': [[{'s': 'service.name'}, {'t': 'str', 'v': ''}]], 'url': None}]})]
+
+
+def known_finding(case, obs):
+    if case['kind'] in ('create', 'start') and case.get('blank_sn') and any(
+            blanks_service_name(p['attrs']) and p.get('behaviour', 'ok') == 'ok' for p in case['plugins']):
+        return BLANK_SN
+    return None
+
+
 # --------------------------------------------------------------------------------------- implementation
 def run_ba(case):
     from deep.api.attributes import BoundedAttributes
